@@ -219,6 +219,16 @@ def run(ctx):
                     "UTF-8 decoding in get_text/get_list is outside the model (cases use valid UTF-8)"]
     ctx.prove()
 
+    # constants the model hard-codes, cross-checked against the working tree on every run
+    import ast as _ast, inspect as _inspect
+    from paramiko.message import Message as _M
+    if _M.big_int != 0xFF000000:
+        ctx.disagree("Message.big_int differs from the model's big_int (0xff000000)", impl=_M.big_int)
+    _src = _inspect.getsource(_M.get_bytes)
+    if "max_pad_size = 1 << 20" not in _src or "if len(b) < n < max_pad_size:" not in _src:
+        ctx.disagree("Message.get_bytes zero-padding rule changed shape (model: pad when len(b) < n < 2^20)",
+                     impl=_src[-300:])
+
     # ---- 1. deflate_long ----------------------------------------------------
     cases = []
     for _ in range(400 * scale):
